@@ -2,6 +2,7 @@ use crate::engine::Ctx;
 
 pub mod c01;
 pub mod c03;
+pub mod c05;
 pub mod c06;
 pub mod c09;
 pub mod c10;
@@ -14,6 +15,7 @@ pub fn lookup(id: &str) -> Option<(&'static str, Runner)> {
     Some(match id {
         "C01" => ("C01", c01::run as Runner),
         "C03" => ("C03", c03::run as Runner),
+        "C05" => ("C05", c05::run as Runner),
         "C06" => ("C06", c06::run as Runner),
         "C09" => ("C09", c09::run as Runner),
         "C10" => ("C10", c10::run as Runner),
